@@ -212,7 +212,7 @@ func mergeRootObjects(aTypes, bTypes map[string]*ast.Definition, a, b *ast.Defin
 			continue
 		}
 		// node field may be declared by many services, it's kept once
-		if isNodeField(f) && fields.ForName(f.Name) != nil {
+		if rf := fields.ForName(f.Name); rf != nil && isNodeField(f) && isNodeField(rf) {
 			continue
 		}
 
@@ -276,11 +276,16 @@ func mergeCustomObjectFields(aTypes, bTypes map[string]*ast.Definition, a, b *as
 	isOverlappinggMap := make(map[int]bool)
 	mf := mergeableFields(b)
 	for i, f := range mf {
+		rf := result.ForName(f.Name)
+		// the same field has to be the same field
+		if rf != nil && !isSameFieldSignature(rf, f) {
+			return nil, fmt.Errorf("overlapping fields with different type or arguments %s : %s", a.Name, f.Name)
+		}
+
 		if isIDField(f) {
 			continue
 		}
 
-		rf := result.ForName(f.Name)
 		isOverlappinggMap[i] = rf != nil
 		result = append(result, f)
 	}
@@ -315,6 +320,25 @@ func mergeCustomObjectFields(aTypes, bTypes map[string]*ast.Definition, a, b *as
 	}
 
 	return result, nil
+}
+
+func isSameFieldSignature(a, b *ast.FieldDefinition) bool {
+	if a.Type.String() != b.Type.String() || len(a.Arguments) != len(b.Arguments) {
+		return false
+	}
+	for _, arg := range a.Arguments {
+		other := b.Arguments.ForName(arg.Name)
+		if other == nil || arg.Type.String() != other.Type.String() {
+			return false
+		}
+		if (arg.DefaultValue == nil) != (other.DefaultValue == nil) {
+			return false
+		}
+		if arg.DefaultValue != nil && arg.DefaultValue.String() != other.DefaultValue.String() {
+			return false
+		}
+	}
+	return true
 }
 
 func mergeableFields(t *ast.Definition) ast.FieldList {
